@@ -74,106 +74,91 @@ def _r1(chk, repo):
 
 
 def _r2(chk, repo):
+    from ..pattern import statements, unify, norm
     td = repo.cls(f"{PDE}:TimeDependentLinearPDE")
     sv = repo.method(td, "solve")[1]
     g = CFG(sv)
     inst = f"{td.qual}.solve"
-    # initial column
-    pre = [_norm(s) for s in strip_docstring(sv.body) if not isinstance(s, (ast.If, ast.For, ast.Return))]
-    problems = []
-    want = ["self.assemble_step(self.time_steps[0])", "u=np.empty((len(self.initial_condition),len(self.time_steps)))", "u[:,0]=self.initial_condition"]
-    if pre[:3] != want:
-        problems.append(f"initialisation is {pre[:3]}, expected assemble at time_steps[0], allocate (n, len(time_steps)), u[:, 0] = initial_condition")
-    chk.add("C18-R2", inst + "/initial", not problems, site(repo, sv), "initial condition assembled at the first time level and stored in column 0", "; ".join(problems), sv)
+    S = statements(sv, nested=True)
+    b0, fail = unify(["self.assemble_step(self.time_steps[0])", "$u=np.empty((len(self.initial_condition),len(self.time_steps)))", "$u[:,0]=self.initial_condition"], S)
+    chk.add("C18-R2", inst + "/initial", b0 is not None, site(repo, sv), "initial condition assembled at the first time level and stored in column 0",
+            "initialisation is not: assemble at time_steps[0], allocate (n, len(time_steps)), u[:, 0] = initial_condition", sv)
+    if b0 is None:
+        b0 = {"u": "u"}
     asm = repo.method(td, "assemble_step")[1]
     t = func_params(asm)[1]
-    body = [_norm(s) for s in strip_docstring(asm.body)]
+    body = [_norm(s_) for s_ in strip_docstring(asm.body)]
     ok = body == [f"self.diff_op,self.rhs,self.initial_condition=self.PDE_form(self._parameter,{t})"]
-    a0 = [_norm(s) for s in strip_docstring(repo.method(td, "assemble")[1].body)]
-    ok = ok and a0 == ["self._parameter=parameter"]
+    a0 = [_norm(s_) for s_ in strip_docstring(repo.method(td, "assemble")[1].body)]
+    ok = ok and a0 == [f"self._parameter={func_params(repo.method(td, 'assemble')[1])[1]}"]
     chk.add("C18-R2", f"{td.qual}.assemble_step", ok, site(repo, asm), "(diff_op, rhs, initial_condition) = PDE_form(parameter, t)", f"assemble_step is {body}; assemble is {a0}", asm)
-    loops = [n for n in ast.walk(sv) if isinstance(n, ast.For)]
+    u = b0["u"]
     found = {}
-    for lp in loops:
-        node = g.node_of(lp)
-        meth = None
-        for tt, lab in g.guards_of(node):
-            nt = _norm(tt.ast)
-            if lab == "T" and nt in ("self.method=='forward_euler'", "self.method=='backward_euler'", "self.method.lower()=='forward_euler'", "self.method.lower()=='backward_euler'"):
-                meth = "forward" if "forward" in nt else "backward"
-        body = [_norm(s) for s in lp.body]
-        it = _norm(lp.iter)
-        tg = _norm(lp.target)
-        # classify every store into level idx+1 by the method test that guards it (or, failing that, by its shape)
-        import re
-        eyes = {path_of(x.targets[0]) for x in ast.walk(sv) if isinstance(x, ast.Assign) and isinstance(x.value, ast.Call)
-                and call_name(x.value) == "np.eye" and path_of(x.targets[0])}
-        kinds = []
-        for s in ast.walk(lp):
-            if isinstance(s, ast.Assign) and "u[:,idx+1]" in _norm(s.targets[0]):
-                sn = g.stmt_node_containing(s)
-                k = None
-                for tt, lab in g.guards_of(sn):
-                    nt = _norm(tt.ast)
-                    if "forward_euler" in nt and "==" in nt:
-                        k = "forward" if lab == "T" else "backward"
-                    if "backward_euler" in nt and "==" in nt:
-                        k = "backward" if lab == "T" else "forward"
-                v = _norm(s.value)
-                if k is None:
-                    k = "backward" if "_solve_linear_system" in v else "forward"
-                vv = re.sub(r"np\.eye\([^()]*(\([^()]*\))?[^()]*\)", "I", v)
-                for e in eyes:
-                    vv = re.sub(rf"\b{re.escape(e)}\b", "I", vv)
-                ok_shape = (k == "forward" and vv in ("(dt*self.diff_op+I)@u_pre+dt*self.rhs", "(I+dt*self.diff_op)@u_pre+dt*self.rhs")) or \
-                           (k == "backward" and (vv.startswith("self._solve_linear_system(A,u_pre+dt*self.rhs,") or
-                                                 vv.startswith("self._solve_linear_system(I-dt*self.diff_op,u_pre+dt*self.rhs,")))
-                kinds.append((k, s, ok_shape))
-        for kind, upd, ok_shape in kinds:
-            found[kind] = (lp, upd, it, tg, body, meth, ok_shape)
-    for kind in ("forward", "backward"):
-        problems = []
-        if kind not in found:
-            chk.fail("C18-R2", f"{inst}/{kind}_euler", site(repo, sv), f"the documented {kind}-Euler update statement was not found", sv)
+    for lp in [n for n in ast.walk(sv) if isinstance(n, ast.For)]:
+        if not (isinstance(lp.target, ast.Tuple) and len(lp.target.elts) == 2 and isinstance(lp.iter, ast.Call) and call_name(lp.iter) == "enumerate"):
             continue
-        lp, upd, it, tg, body, meth, ok_shape = found[kind]
-        if not ok_shape:
-            problems.append(f"{kind}-Euler recurrence is `{unparse(upd.value)[:90]}`, not the documented one")
-        if tg != "(idx,t)":
-            raise AnchorError(f"{inst}: loop target is {tg}")
+        i, tt = [e.id for e in lp.target.elts]
+        LS = statements(lp, nested=True)
+        for txt, a in LS:
+            if not (isinstance(a, ast.Assign) and norm(a.targets[0]).startswith((f"{u}[:,{i}+1]", f"({u}[:,{i}+1],"))):
+                continue
+            sn = g.stmt_node_containing(a)
+            kind = None
+            for tst, lab in g.guards_of(sn):
+                nt = _norm(tst.ast)
+                if "forward_euler" in nt and "==" in nt:
+                    kind = "forward" if lab == "T" else "backward"
+                if "backward_euler" in nt and "==" in nt:
+                    kind = "backward" if lab == "T" else "forward"
+            if kind is None:
+                kind = "backward" if "_solve_linear_system" in txt else "forward"
+            found[kind] = (lp, a, i, tt, LS)
+    for kind in ("forward", "backward"):
+        if kind not in found:
+            chk.fail("C18-R2", f"{inst}/{kind}_euler", site(repo, sv), f"no store of time level idx+1 found for {kind} Euler", sv)
+            continue
+        lp, upd, i, tt, LS = found[kind]
+        problems = []
         want_iter = "enumerate(self.time_steps[:-1])" if kind == "forward" else "enumerate(self.time_steps[1:])"
+        it = _norm(lp.iter)
         if it != want_iter:
             problems.append(f"{kind} Euler iterates `{unparse(lp.iter)}`: the operator and source would be assembled at the "
                             f"{'end' if kind == 'forward' else 'start'} of each step instead of the {'start' if kind == 'forward' else 'end'} "
                             f"(expected {want_iter})")
-        want_dt = "dt=self.time_steps[idx+1]-t" if kind == "forward" else "dt=t-self.time_steps[idx]"
-        # dt must be defined inside the loop from the two consecutive levels of this step
-        dts = [b for b in body if b.startswith("dt=")]
-        if it == want_iter and dts != [want_dt]:
-            problems.append(f"time step is {dts}, expected `{want_dt}` (difference of the two levels of this step)")
-        if it != want_iter and not dts:
-            problems.append("dt is not computed per step")
-        if "self.assemble_step(t)" not in body:
-            problems.append("operator/source are not re-assembled at the loop's time level in every step")
-        else:
-            i_asm = body.index("self.assemble_step(t)")
-            i_upd = [i for i, s in enumerate(lp.body) if upd in list(ast.walk(s))]
-            if not i_upd or i_asm > i_upd[0]:
+        dtp = f"$dt=self.time_steps[{i}+1]-{tt}" if kind == "forward" else f"$dt={tt}-self.time_steps[{i}]"
+        bb, fail = unify([dtp, f"self.assemble_step({tt})", f"$up={u}[:,{i}]"], LS)
+        if bb is None:
+            if it == want_iter or fail > 0:
+                problems.append(["time step is not the difference of the two levels of this step", "operator/source are not re-assembled at the loop's time level in every step",
+                                 "previous level is not column idx"][fail])
+            bb, _ = unify(["$dt=$rhs"], [(t_, a_) for t_, a_ in LS if "time_steps" in t_], distinct=False)
+            bb = bb or {}
+        if "dt" in bb and "up" in bb:
+            dt, up = bb["dt"], bb["up"]
+            eyes = {path_of(x.targets[0]) for x in ast.walk(sv) if isinstance(x, ast.Assign) and isinstance(x.value, ast.Call) and call_name(x.value) == "np.eye" and path_of(x.targets[0])}
+            import re
+            v = _norm(upd.value)
+            vv = re.sub(r"np\.eye\([^()]*(\([^()]*\))?[^()]*\)", "I", v)
+            for e in eyes:
+                vv = re.sub(rf"\b{re.escape(e)}\b", "I", vv)
+            if kind == "forward":
+                ok = vv in (f"({dt}*self.diff_op+I)@{up}+{dt}*self.rhs", f"(I+{dt}*self.diff_op)@{up}+{dt}*self.rhs")
+            else:
+                amat = [norm(a_.value) for t_, a_ in LS if isinstance(a_, ast.Assign) and norm(a_.value).replace(" ", "") in (f"np.eye(len({up}))-{dt}*self.diff_op",)]
+                ok = vv.startswith(f"self._solve_linear_system(I-{dt}*self.diff_op,{up}+{dt}*self.rhs,") or \
+                    (bool(amat) and any(vv.startswith(f"self._solve_linear_system({path_of(a_.targets[0])},{up}+{dt}*self.rhs,") for t_, a_ in LS
+                                        if isinstance(a_, ast.Assign) and norm(a_.value).replace(" ", "") == f"np.eye(len({up}))-{dt}*self.diff_op"))
+            if not ok:
+                problems.append(f"{kind}-Euler recurrence is `{unparse(upd.value)[:90]}`, not the documented one")
+            order = [a_ for t_, a_ in LS]
+            asm_i = [k for k, (t_, a_) in enumerate(LS) if t_ == f"self.assemble_step({tt})"]
+            upd_i = [k for k, (t_, a_) in enumerate(LS) if a_ is upd]
+            if asm_i and upd_i and asm_i[0] > upd_i[0]:
                 problems.append("assembly does not precede the use of the operator in the update")
-        if "u_pre=u[:,idx]" not in body:
-            problems.append("previous level is not column idx")
-        tgt = _norm(upd.targets[0])
-        if kind == "forward" and tgt != "u[:,idx+1]":
-            problems.append(f"forward update stores into {tgt}, not column idx+1")
-        if kind == "backward":
-            if tgt != "(u[:,idx+1],info)":
-                problems.append(f"backward update stores into {tgt}")
-            if "self._solve_linear_system(A," in _norm(upd.value) and "A=np.eye(len(u_pre))-dt*self.diff_op" not in [_norm(s) for s in ast.walk(lp) if isinstance(s, ast.Assign)]:
-                problems.append("implicit system matrix is not I - dt*diff_op")
-        chk.add("C18-R2", f"{inst}/{kind}_euler", not problems, site(repo, lp), f"{kind} Euler: {want_iter}, {want_dt}, assemble_step(t) before the update",
+        chk.add("C18-R2", f"{inst}/{kind}_euler", not problems, site(repo, lp), f"{kind} Euler: {want_iter}, dt from the two levels of the step, assemble_step(t) before the update",
                 "; ".join(problems), lp)
     rets = [n for n in strip_docstring(sv.body) if isinstance(n, ast.Return)]
-    chk.add("C18-R2", inst + "/return", len(rets) == 1 and _norm(rets[0].value) == "(u,info)", site(repo, sv), "returns (u, info)", "solve does not return (u, info)", sv)
+    chk.add("C18-R2", inst + "/return", len(rets) == 1 and _norm(rets[0].value).startswith(f"({u},"), site(repo, sv), "returns (u, info)", "solve does not return (u, info)", sv)
 
 
 def _r3(chk, repo):
